@@ -1,7 +1,7 @@
 import json
 import vf
 
-IMPORTS = ["From ZV Require Import Lib.Base Model.DirWalk."]
+IMPORTS = ["From ZV Require Import Lib.Base Model.IgnoreFile Model.DirWalk."]
 
 HARNESSES = [
     dict(name="archive", pkg_dir="internal/archive", run="TestVerifC15$", files=["internal/archive/zz_verif_c15_test.go"],
@@ -15,13 +15,14 @@ RULE = ("archive: 0-7 members (regular / directory / symlink / hard link, fifo, 
         "tar|tgz|zip x strip 0-3 or 6 x SizeMax 24-63; 8% empty archives, 10% without a regular member. "
         "directory: generated trees of depth <= 4 on a scratch directory (regular files, empty files, fifos, symlinks to files / "
         "directories / outside the root / dangling / absolute, ignored directory names at every depth, .sourcegraph/ignore as a real "
-        "file, as a symlink, inside a symlinked .sourcegraph, absent; patterns with globs, comments, blank lines, leading '/') "
+        "file, as a symlink, inside a symlinked .sourcegraph, a directory, absent; patterns derived from the tree's own paths with globs, comments, "
+        "blank lines, leading '/', padding, CRLF; unclean link targets) "
         "through the real indexArg. non-trivial = >= 2 members with a regular one / >= 3 nodes with a link or an ignore rule in effect.")
 
 TRUSTED = [
     "correspondence harnesses harness/overlay/internal/archive/zz_verif_c15_test.go and harness/overlay/cmd/zoekt-index/zz_verif_c15_test.go (generators, canonicalisation, Go oracles)",
     "archive/tar, archive/zip, compress/gzip decoding and http.DetectContentType (the model starts from the member list)",
-    "the glob matcher github.com/gobwas/glob behind ignore.Matcher.Match: a verdict function in the model, instantiated in the correspondence with the real matcher's verdicts on every path of the tree",
+    "the glob engine github.com/gobwas/glob: a verdict function glob(pattern, path) in the model, instantiated in the correspondence with the real engine's verdicts for every (pattern, path) of the case; ParseIgnoreFile's line syntax IS modelled (Model/IgnoreFile.v: ASCII white space only, no 64 KiB line limit)",
     "index.Builder / shard writer / searcher: a document handed to Builder.Add is the document read back (C09/C10's subject); Builder.Add's skip rewriting (too large, too small, binary) is modelled, the too-many-trigrams rule is not (inputs stay below TrigramMax)",
     "the operating system: lstat/readdir/readlink/readfile succeed and return the tree's data (I/O errors and log.Fatal exits on them are not modelled)",
 ]
